@@ -84,7 +84,7 @@ CHECKS = {
          "DESIGN.md#c09"),
  "C10": ("H", "model_checking",
          "exhaustive history search over add_spend_bundles/finalize on fresh real builders with decoding, signature, consensus-cost and differential undo oracles",
-         "Every history of <=4 (quick, 406901 per builder) / <=5 (thorough, 10172526 per builder) add attempts over 25 letters (bundle shape: one spend, two spends sharing its puzzle, 40 kB solution, undecodable reveal, batch of two; declared cost: truthful, landing exactly on the block limit (computed by a dry run), that+1 (late rejection -> undo), limit+1 (early rejection), 0) followed by finalize is executed on a fresh BlockBuilder and a fresh InternedBlockBuilder: no panic; the finalized generator decodes (back-reference parser + harness) to exactly the multiset of spends of the accepted attempts; the signature is the harness's aggregate of exactly their signatures; cost <= max; with truthful costs the returned cost equals what run_block_generator2 charges for the generator; cost() before finalize >= final cost; and the history with the rejected attempts deleted yields byte-identical generator, signature and cost.",
+         "Every history of <=4 (quick, 837931 per builder) / <=5 (thorough, 25137931 per builder) add attempts over 30 letters (bundle shape: one spend, two spends sharing its puzzle, 40 kB solution, undecodable reveal, batch of two, batch of a valid and an undecodable bundle; declared cost: truthful, landing exactly on the block limit (computed by a dry run), that+1 (late rejection -> undo), limit+1 (early rejection), 0) followed by finalize is executed on a fresh BlockBuilder and a fresh InternedBlockBuilder: no panic; the finalized generator decodes (back-reference parser + harness) to exactly the multiset of spends of the accepted attempts; the signature is the harness's aggregate of exactly their signatures; cost <= max; with truthful costs the returned cost equals what run_block_generator2 charges for the generator; cost() before finalize >= final cost; and the history with the rejected attempts deleted yields byte-identical generator, signature and cost.",
          "trusts: run_spendbundle for the truthful declared cost, clvmr's back-reference parser for decoding, run_block_generator2 as the consensus cost; known findings: cost() of a builder with no accepted add underestimates the empty block; after two adds rejected after serialisation the compressed generator's bytes (back-reference choice, length and hence cost) differ from the history without them while tree and signature are equal (clvmr TreeCache state survives restore)",
          "DESIGN.md#c10"),
  "C05": ("E", "exploration",
